@@ -53,16 +53,10 @@ const CO_OBJ_TYPE COTNmtHbProd = { COTNmtHbProdSize, COTNmtHbProdInit, COTNmtHbP
 
 static uint32_t COTNmtHbProdSize(struct CO_OBJ_T *obj, struct CO_NODE_T *node, uint32_t width)
 {
-    uint32_t result = (uint32_t)0;
+    const CO_OBJ_TYPE *uint16 = CO_TUNSIGNED16;
 
-    CO_UNUSED(node);
-    CO_UNUSED(width);
-
-    /* check for valid reference */
-    if ((obj->Data) != (CO_DATA)0) {
-        result = COT_ENTRY_SIZE;
-    }
-    return (result);
+    /* a directly stored heartbeat time of 0 is a value, not a missing reference */
+    return uint16->Size(obj, node, width);
 }
 
 static CO_ERR COTNmtHbProdRead(struct CO_OBJ_T *obj, struct CO_NODE_T *node, void *buffer, uint32_t size)
